@@ -62,7 +62,12 @@ var c14Offers = []extElem{
 	{"permessage-deflate; server_no_context_takeover=true", 0, false, true},
 	{"permessage-deflate; server_no_context_takeover=", 0, false, true},
 	{"permessage-deflate; client_max_window_bits=\"10\"", -1, false, false},
-	{"permessage-deflate; client_max_window_bits=010", -1, false, false},
+	// RFC 7692 7.1.2.2: "a decimal integer value without leading zeroes between 8 to 15": other spellings of a
+	// number in that range are malformed
+	{"permessage-deflate; client_max_window_bits=010", 0, false, false},
+	{"permessage-deflate; client_max_window_bits=08", 0, false, false},
+	{"permessage-deflate; client_max_window_bits=+15", 0, false, false},
+	{"permessage-deflate; client_max_window_bits=\"012\"; client_no_context_takeover", 0, true, false},
 	{"x-webkit-deflate-frame", 0, false, false},
 	{"permessage-bzip2", 0, false, false},
 	{"superspeed; colormode=rgb", 0, false, false},
